@@ -1,7 +1,7 @@
 (* C09 -- Overload degrades by omission only.
    Only pinned statements, closed by [exact lemma], with Print Assumptions. *)
 From Coq Require Import List NArith Bool.
-From FT Require Import Model.Base Model.Local Model.Spsc Proofs.SpscProofs.
+From FT Require Import Model.Base Model.Local Model.Spsc Proofs.SpscProofs Proofs.LimitProofs.
 Import ListNotations.
 Open Scope N_scope.
 
@@ -59,8 +59,32 @@ Check (C09_forced_fifo_no_loss :
   forall (A : Type) (forced : A -> bool) (s : pstate) (ms : list mstep),
     filter forced (line (run_micro forced s ms)) = filter forced (line s)).
 
+(* the per-scope span limit: once a scope's span queue is full, opening a local span, an event
+   and properties are skipped with no effect at all -- nothing already recorded is touched, no
+   id is drawn, the current parent does not move -- so the recorded spans keep their parents;
+   and the scope stays full (finishing recorded spans makes no room) *)
+Theorem C09_full_scope_skips_spans :
+  forall st name e, top_full st -> s_enter st name e = (None, e).
+Proof. exact full_enter_skipped. Qed.
+
+Theorem C09_full_scope_skips_events :
+  forall st name ps e, top_full st -> s_add_event st name ps e = (st, e).
+Proof. exact full_event_skipped. Qed.
+
+Theorem C09_full_scope_skips_properties :
+  forall st ps e, top_full st -> s_add_props st ps e = (st, e).
+Proof. exact full_props_skipped. Qed.
+
+Theorem C09_full_scope_stays_full :
+  forall dbg st h e st' e', top_full st -> s_exit dbg st h e = Ok (st', e') -> top_full st'.
+Proof. exact full_stays_full_after_exit. Qed.
+
 Print Assumptions C09_forced_fifo_no_loss.
 Print Assumptions C09_forced_popped_prefix.
 Print Assumptions C09_omission_only.
 Print Assumptions C09_send_bounded.
 Print Assumptions C09_ring_bounded.
+Print Assumptions C09_full_scope_skips_spans.
+Print Assumptions C09_full_scope_skips_events.
+Print Assumptions C09_full_scope_skips_properties.
+Print Assumptions C09_full_scope_stays_full.
